@@ -53,7 +53,8 @@ mod verif_kani_rowpush {
         let want = st.scratch.work_row(lex);
         kani::cover!(valid > nrows + 1);
         st.store(lex);
-        assert!(st.rows.len() == if nrows == len { len + 1 } else { len });
+        let want_len = if nrows == len { len + 1 } else { len };
+        assert!(st.rows.len() == want_len);
         assert!(st.rows[nrows] == want);
         let k: usize = kani::any();
         kani::assume(k < nrows);
